@@ -272,3 +272,142 @@ def _concrete_sequence(real, src1, c1, src2, c2, mode, comp1):
     except Exception:
         pass
     return run2() == alone
+
+
+def incdirs_task(second):
+    """a caller re-uses one include_dirs list for two projects (second = 'B': has its own
+    config.asm; 'C': has none and must be refused): the second result must equal the result of
+    assembling the second project alone, and the caller's list must be left as it was"""
+    from symx import vfs as vfsmod
+    res = TaskResult('sequence:include_dirs:%s' % second)
+    asm = asmshim.load_asm_shimmed()
+    real = asmshim.load_asm_pristine()
+    prof = common.FuncProfile()
+    files = {'/projA/main.asm': 'include config.asm\naddi x10, x0, VALUE\na_end:',
+             '/projA/config.asm': 'VALUE = @KA@',
+             '/projB/main.asm': 'include config.asm\naddi x11, x0, VALUE\nb_end:',
+             '/projB/config.asm': 'VALUE = @KB@',
+             '/projC/main.asm': 'include config.asm\naddi x12, x0, VALUE'}
+    target = '/proj%s/main.asm' % second
+    runs = {}
+    for which in ('alone', 'after'):
+        x = core.Explorer(max_paths=400)
+        lst = []
+
+        def fn(p, which=which):
+            v = vfsmod.VFS('/work')
+            for d in ('/common', '/work'):
+                v.add_dir(d)
+            for pth, text in files.items():
+                v.add_text(pth, text)
+            v.install(asm)
+            ka, kb = p.int('KA', 14), p.int('KB', 14)
+            Markers.table = {'KA': ka, 'KB': kb}
+            dirs = ['/common']
+            p.notes['dirs'] = dirs
+            if which == 'after':
+                try:
+                    with prof:
+                        asm.assemble('/projA/main.asm', include_dirs=dirs)
+                except Exception:
+                    pass
+                p.notes['dirs_after_first'] = list(dirs)
+            labels, consts = {}, {}
+            with prof:
+                out = asm.assemble(target, include_dirs=dirs, labels=labels, constants=consts)
+            return out, labels, consts
+        for p, kind, val in x.run(fn):
+            if kind == 'limit':
+                res.inconc('include_dirs sequence: %s' % val)
+                continue
+            # frame condition on the caller's argument
+            ok = p.notes['dirs'] == ['/common'] and p.notes.get('dirs_after_first', ['/common']) == ['/common']
+            if not ok:
+                model = p.witness()
+                vals = {k: core.concrete(v, model) for k, v in x.inputs.items()}
+                got = _concrete_incdirs(real, files, vals, target)
+                if got['dirs_ok']:
+                    res.inconc('include_dirs: list mutation did not reproduce')
+                else:
+                    path = common.write_replay('C16', 'incdirs_list_%s' % second, dict(kind='sequence', property='C16', files=files, values=vals,
+                                                                                      what='the caller\'s include_dirs list was modified: %r' % (got['dirs'],)))
+                    res['violations'].append(dict(harness='sequence', seq='include_dirs', kind='caller-list-mutated', dirs=got['dirs'], replay=path))
+            res.oblig(ok)
+            lst.append(dict(pc=pc_formula(p), kind=kind, val=val, exc=type(val).__name__ if kind == 'exc' else None))
+        res.absorb_stats(x.stats)
+        runs[which] = lst
+    s = z3.Solver()
+    n = 0
+    for a in runs['alone']:
+        for b in runs['after']:
+            if s.check(a['pc'], b['pc']) != z3.sat:
+                continue
+            n += 1
+            if a['kind'] != b['kind']:
+                ob = z3.BoolVal(False)
+            elif a['kind'] == 'exc':
+                ob = z3.BoolVal(a['exc'] == b['exc'])
+            else:
+                (oa, la, ca), (ob_, lb, cb) = a['val'], b['val']
+                ob = z3.BoolVal(False) if (set(la) != set(lb) or set(ca) != set(cb)) else z3.And(
+                    seg_equal(SymBytes.of(oa).segs, SymBytes.of(ob_).segs),
+                    *[bool_z3(la[k] == lb[k]) for k in la], *[bool_z3(ca[k] == cb[k]) for k in ca])
+            r = s.check(a['pc'], b['pc'], z3.Not(ob))
+            res['queries'] += 2
+            if r == z3.sat:
+                mdl = s.model()
+                vals = {k: mdl.eval(z3.BitVec(k, 14), model_completion=True).as_signed_long() for k in ('KA', 'KB')}
+                got = _concrete_incdirs(real, files, vals, target)
+                if got['same']:
+                    res.inconc('include_dirs: counterexample %r did not reproduce' % vals)
+                else:
+                    path = common.write_replay('C16', 'incdirs_%s' % second, dict(kind='sequence', property='C16', files=files, values=vals,
+                                               what='project %s assembled after project A with the same include_dirs list differs from project %s alone: %r vs %r' % (second, second, got['after'], got['alone'])))
+                    res['violations'].append(dict(harness='sequence', seq='include_dirs', kind='history-dependent', values=vals,
+                                                  after=str(got['after'])[:200], alone=str(got['alone'])[:200], replay=path))
+                    res.oblig(False)
+            else:
+                res.oblig(True if r == z3.unsat else None, 'unknown include_dirs sequence')
+    got = _concrete_incdirs(real, files, dict(KA=7, KB=9), target)
+    if got['same'] and got['dirs_ok']:
+        res['validated'] += 1
+    if n == 0:
+        res['vacuity'].append('include_dirs sequence: no feasible pair')
+    res['samples'].append(dict(first='/projA/main.asm', second=target, shared_include_dirs=['/common'], pairs=n))
+    res['functions'] = prof.names()
+    return res
+
+
+def _concrete_incdirs(real, files, vals, target):
+    import os
+    import shutil
+    import tempfile
+    root = tempfile.mkdtemp(prefix='bbverif_')
+    old = os.getcwd()
+    try:
+        for d in ('/common', '/work'):
+            os.makedirs(root + d, exist_ok=True)
+        for pth, text in files.items():
+            os.makedirs(os.path.dirname(root + pth), exist_ok=True)
+            with open(root + pth, 'w') as f:
+                f.write(text.replace('@KA@', str(vals['KA'])).replace('@KB@', str(vals['KB'])))
+        os.chdir(root + '/work')
+
+        def run(dirs):
+            labels, consts = {}, {}
+            try:
+                out = real.assemble(root + target, include_dirs=dirs, labels=labels, constants=consts)
+                return ('ok', bytes(out).hex(), labels, consts)
+            except Exception as e:
+                return ('exc', type(e).__name__)
+        alone = run([root + '/common'])
+        dirs = [root + '/common']
+        try:
+            real.assemble(root + '/projA/main.asm', include_dirs=dirs)
+        except Exception:
+            pass
+        after = run(dirs)
+        return dict(same=alone == after, alone=alone, after=after, dirs=[d[len(root):] for d in dirs], dirs_ok=dirs == [root + '/common'])
+    finally:
+        os.chdir(old)
+        shutil.rmtree(root, ignore_errors=True)
